@@ -247,9 +247,10 @@ class DirectCollocation(SamplingMethod):
             # Add it to the optimizer, but first make x,u concrete.
             opti.subject_to(self.eval_at_control(stage, c, -1), scale=args["scale"], meta=meta)
 
-    def set_initial(self, stage, master, initial):
+    def set_initial(self, stage, master, initial, follow_time_grid=True):
         opti = master.opti if hasattr(master, 'opti') else master
         opti.cache_advanced()
+        initial_arg = initial
         initial = HashOrderedDict(initial)
         self.horizon_guesses_first(stage, initial)
         algs = get_ranges_dict(stage.algebraics)
@@ -325,6 +326,7 @@ class DirectCollocation(SamplingMethod):
                     e_shape = e[algs[var],:].shape
                     value = DM(opti.debug.value(hcat([self.eval_at_integrator_root(stage, expr, k, i, j) for j in range(e_shape[1])]), opti_initial))                    
                     opti.set_initial(e[algs[var],:], value)
+        if follow_time_grid: self.follow_time_grid(stage, master, initial_arg)
 
     def to_function(self, stage, name, args, results, *margs):
         args = list(args)
